@@ -1,484 +1,818 @@
 /-
-The invariant behind C02 and its preservation by the primitive transitions.
+The invariant behind C02 (new model: parser protocol, retransmissions keep their snapshot).
 -/
 import Strophe.Lemmas.ConnC02Base
 
 namespace Strophe.Lemmas.ConnC02
 open Strophe Strophe.Conn
 
-/-- the STARTTLS `<proceed/>` handler -/
-abbrev hT : HFun := .sys .proceedTls
+/-! ### handler classes -/
 
-/-- handlers that only exist after `_auth` went past the MANDATORY_TLS check -/
-def postFn : HFun → Bool
+def isF : HFun → Bool
+  | .sys .features => true
+  | _ => false
+def isT : HFun → Bool
+  | .sys .proceedTls => true
+  | _ => false
+/-- handlers waiting for the answer to a SASL `<auth/>` -/
+def isS : HFun → Bool
   | .sys (.saslResult _) => true
   | .sys .digestChallenge => true
   | .sys .digestRspauth => true
   | .sys (.scramChallenge _ _) => true
+  | _ => false
+/-- handlers that only exist after `<success/>` -/
+def isLate : HFun → Bool
   | .sys .featuresSasl => true
   | .sys .featuresCompress => true
-  | .sys .sm => true
   | .sys .compressResult => true
+  | .sys .sm => true
   | .sys .bind => true
   | .sys .session => true
   | _ => false
+/-- handlers installed past the MANDATORY_TLS check -/
+def gatedFn (f : HFun) : Bool := isS f || isLate f
+/-- what an id handler can be -/
+def idFnOk : HFun → Bool
+  | .sys .bind => true
+  | .sys .session => true
+  | .sys .legacy => true
+  | .userAll => true
+  | _ => false
+
+/-- elements of the negotiation that the properties speak about -/
+def negItem : Item → Bool
+  | .starttls => true
+  | .auth _ _ => true
+  | .response _ => true
+  | .legacy _ _ _ => true
+  | _ => false
+
+theorem isT_of_isF {f : HFun} (h : isF f = true) : isT f = false := by
+  cases f with
+  | userAll => rfl
+  | sys k => cases k <;> simp_all [isF, isT]
+theorem isS_of_isF {f : HFun} (h : isF f = true) : isS f = false := by
+  cases f with
+  | userAll => rfl
+  | sys k => cases k <;> simp_all [isF, isS]
+theorem isS_of_isT {f : HFun} (h : isT f = true) : isS f = false := by
+  cases f with
+  | userAll => rfl
+  | sys k => cases k <;> simp_all [isT, isS]
+
+theorem authBearing_neg {it : Item} (h : it.authBearing = true) : negItem it = true := by
+  cases it <;> simp_all [Item.authBearing, negItem]
+
+/-- no handler of class `p`, except the one that is being run (`u`) -/
+def NoH (u : Option Nat) (p : HFun → Bool) (c : Conn) : Prop :=
+  ∀ h ∈ c.handlers, p h.fn = true → some h.uid = u
+/-- no `missingFeatures` timer, except the one being run -/
+def NoTM (ut : Option Nat) (c : Conn) : Prop :=
+  ∀ t ∈ c.timed, t.fn = .missingFeatures → some t.uid = ut
 
 def Gate (c : Conn) : Prop := c.tlsMandatory = true → c.hasTls = true ∧ c.secured = true
 def Safe (c : Conn) : Prop := c.state = .disconnected ∨ (c.state = .connected ∧ Gate c)
-def NotPost (c : Conn) : Prop :=
-  (∀ h ∈ c.handlers, postFn h.fn = false) ∧ (∀ h ∈ c.idHandlers, postFn h.fn = false) ∧
+def NotGated (c : Conn) : Prop :=
+  (∀ h ∈ c.handlers, gatedFn h.fn = false) ∧ (∀ h ∈ c.idHandlers, gatedFn h.fn = false) ∧
   c.openHandler ≠ .openSasl ∧ c.openHandler ≠ .openCompress
 
-/-- properties 2 and 4 for one element, as far as they hold: for what the library queued while
-    stream management was off -/
-def ElemOk (it : Item) (o : Owner) (s : Snap) : Prop :=
-  o = .smStrophe → (it = .starttls → s.tlsDisabled = false) ∧
-    (∀ u r p, it = .legacy u r p → s.authLegacy = true ∧ s.isClient = true)
+/-- a parser reset is pending or has just happened: the next thing the server can send is a stream open -/
+def Fr (c : Conn) : Prop := c.resetParser = true ∨ c.pst = .fresh
+/-- authentication is over -/
+def LateC (c : Conn) : Prop :=
+  (∃ h ∈ c.handlers, isLate h.fn = true) ∨ (∃ h ∈ c.idHandlers, isLate h.fn = true) ∨
+  c.openHandler = .openSasl ∨ c.openHandler = .openCompress ∨ c.sm.enabled = true
+def OpenPre (c : Conn) : Prop := c.openHandler = .open_ ∨ c.openHandler = .openTls
 
-/-- invariant of the handler world (the connection is not in state `connecting`).  `u`: uid of the
-    `<proceed/>` handler that is being run right now (it is still in the list while TLS starts). -/
-structure H (u : Option Nat) (c : Conn) : Prop where
+/-! ### mechanisms -/
+
+/-- the single-bit masks of the mechanisms that beat PLAIN for this connection -/
+def wList (cert : Bool) : List Nat :=
+  [Gen.saslMaskScramsha512Plus, Gen.saslMaskScramsha256Plus, Gen.saslMaskScramsha1Plus,
+   Gen.saslMaskScramsha512, Gen.saslMaskScramsha256, Gen.saslMaskScramsha1, Gen.saslMaskDigestmd5] ++
+  (if cert then [Gen.saslMaskExternal] else [])
+
+/-- "nothing tried yet": every better mechanism the server offered is still in `saslSupport` -/
+def NT (c : Conn) : Prop := ∀ m ∈ wList c.cert, c.g.offeredMechs &&& m ≠ 0 → c.saslSupport &&& m ≠ 0
+/-- `_handle_features` drops PLAIN when anything else (but ANONYMOUS) is supported -/
+def KMask (c : Conn) : Prop :=
+  c.saslSupport &&& ((Gen.saslMaskPlain ||| Gen.saslMaskAnonymous) ^^^ 0xFFFF) ≠ 0 → c.saslSupport &&& Gen.saslMaskPlain = 0
+
+/-! ### elements -/
+
+def strongerMask' : Nat := scramMaskAll ||| Gen.saslMaskDigestmd5
+
+/-- what the snapshot of a negotiation element says -/
+def ItemOk (it : Item) (s : Snap) : Prop :=
+  (it = .starttls → s.tlsDisabled = false) ∧
+  (∀ u r p, it = .legacy u r p → s.authLegacy = true ∧ s.isClient = true) ∧
+  (∀ t, it = .auth (b "PLAIN") t → s.g.offeredMechs &&& strongerMask' = 0 ∧
+    (s.cert = true → s.g.offeredMechs &&& Gen.saslMaskExternal = 0))
+
+/-- the snapshot shows the flags as they are now -/
+def FlagsNow (c : Conn) (s : Snap) : Prop :=
+  s.mandatory = c.tlsMandatory ∧ s.tlsDisabled = c.tlsDisabled ∧ s.authLegacy = c.authLegacy
+
+/-- the C02 properties of one record -/
+def RecOk (r : TxRec) : Prop :=
+  ((r.mandatoryW = true ∨ r.snap.mandatory = true) → r.item.authBearing = true → r.sec = true) ∧
+  (r.item = .starttls → r.snap.tlsDisabled = false ∧ r.tlsDisabledW = false) ∧
+  (∀ u res p, r.item = .legacy u res p → r.snap.authLegacy = true ∧ r.snap.isClient = true ∧ r.legacyW = true) ∧
+  (∀ t, r.item = .auth (b "PLAIN") t → r.snap.g.offeredMechs &&& strongerMask' = 0 ∧
+    (r.snap.cert = true → r.snap.g.offeredMechs &&& Gen.saslMaskExternal = 0))
+
+/-! ### the invariant -/
+
+/-- TLS gate -/
+structure G (u : Option Nat) (c : Conn) : Prop where
   nc : c.state ≠ .connecting
-  tx1 : ∀ r ∈ c.tx, r.snap.mandatory = true → r.item.authBearing = true → r.sec = true
-  txE : ∀ r ∈ c.tx, ElemOk r.item r.owner r.snap
-  q1 : c.state = .connected → ∀ e ∈ c.queue, e.snap.mandatory = true → e.item.authBearing = true →
-    c.hasTls = true ∧ c.secured = true
-  qE : ∀ e ∈ c.queue, ElemOk e.item e.owner e.snap
-  smq : ∀ e ∈ c.sm.queue, e.2.owner ≠ .smStrophe
-  noT : c.secured = true → ∀ h ∈ c.handlers, h.fn = hT → some h.uid = u
-  tUd : ∀ h ∈ c.handlers, h.fn = hT → h.ud = 0
-  tUniq : ∀ h1 ∈ c.handlers, ∀ h2 ∈ c.handlers, h1.fn = hT → h2.fn = hT → h1.uid = h2.uid
   userH : ∀ h ∈ c.handlers, h.user = true → h.fn = .userAll
   userI : ∀ h ∈ c.idHandlers, h.user = true → h.fn = .userAll
-  post : NotPost c ∨ Safe c
+  ud0 : ∀ h ∈ c.handlers, (isF h.fn || isT h.fn) = true → h.ud = 0
+  uniq : ∀ h1 ∈ c.handlers, ∀ h2 ∈ c.handlers, (isF h1.fn || isT h1.fn) = true → h1.fn = h2.fn → h1.uid = h2.uid
+  q1 : c.state = .connected → c.tlsMandatory = true → ∀ e ∈ c.queue, e.item.authBearing = true →
+    c.hasTls = true ∧ c.secured = true
+  noT : c.secured = true → NoH u isT c
+  gated : NotGated c ∨ Safe c
 
-/-- the fields the invariant reads -/
-def SameH (c c' : Conn) : Prop :=
-  c'.state = c.state ∧ c'.tlsMandatory = c.tlsMandatory ∧ c'.hasTls = c.hasTls ∧ c'.secured = c.secured ∧
-  c'.tx = c.tx ∧ c'.queue = c.queue ∧ (∀ e ∈ c'.sm.queue, e ∈ c.sm.queue) ∧ c'.handlers = c.handlers ∧
-  c'.idHandlers = c.idHandlers ∧ c'.openHandler = c.openHandler
+/-- phases of the negotiation -/
+structure Ph (u ut : Option Nat) (c : Conn) : Prop where
+  idFn : ∀ h ∈ c.idHandlers, idFnOk h.fn = true
+  uniqS : ∀ h1 ∈ c.handlers, ∀ h2 ∈ c.handlers, isS h1.fn = true → isS h2.fn = true →
+    some h1.uid ≠ u → some h2.uid ≠ u → h1.uid = h2.uid
+  uniqTM : ∀ t1 ∈ c.timed, ∀ t2 ∈ c.timed, t1.fn = .missingFeatures → t2.fn = .missingFeatures → t1.uid = t2.uid
+  /-- at most one of: waiting for features, waiting for `<proceed/>`, waiting for a SASL answer -/
+  excl : (NoH u isT c ∧ NoH u isS c) ∨ ((NoH u isF c ∧ NoTM ut c) ∧ NoH u isS c) ∨
+    ((NoH u isF c ∧ NoTM ut c) ∧ NoH u isT c)
+  e5 : Fr c → NoH u isF c ∧ NoTM ut c ∧ NoH u isT c ∧ NoH u isS c
+  e6 : LateC c → NoH u isF c ∧ NoTM ut c ∧ NoH u isT c ∧ NoH u isS c ∧ ¬OpenPre c
+  e7 : c.state = .disconnected → c.sm.enabled = false
+  frp : c.state = .connected → c.pst = .fresh → c.resetParser = false
 
-theorem H.same {u : Option Nat} {c c' : Conn} (h : H u c) (s : SameH c c') : H u c' := by
-  obtain ⟨e1, e2, e3, e4, e5, e6, e7, e8, e9, e10⟩ := s
-  have h' := h
-  obtain ⟨a1, a2, a3, a4, a5, a6, a7, a8, a9, a10, a11, a12⟩ := h'
-  refine ⟨?_, ?_, ?_, ?_, ?_, ?_, ?_, ?_, ?_, ?_, ?_, ?_⟩
-  · rw [e1]; exact a1
-  · rw [e5]; exact a2
-  · rw [e5]; exact a3
-  · rw [e1, e6, e3, e4]; exact a4
-  · rw [e6]; exact a5
-  · exact fun e he => a6 e (e7 e he)
-  · rw [e4, e8]; exact a7
-  · rw [e8]; exact a8
-  · rw [e8]; exact a9
-  · rw [e8]; exact a10
-  · rw [e9]; exact a11
-  · unfold NotPost Safe Gate at *
-    rw [e1, e2, e3, e4, e8, e9, e10]; exact a12
+/-- mechanism bookkeeping -/
+structure Me (u ut : Option Nat) (c : Conn) : Prop where
+  i1 : c.state ≠ .disconnected → NT c ∨ (NoH u isF c ∧ NoTM ut c ∧ NoH u isT c ∧ (Fr c → ¬OpenPre c))
+  i2 : c.state ≠ .disconnected → NoH u isS c ∨ (c.saslSupport &&& Gen.saslMaskPlain ≠ 0 → NT c)
+  k : KMask c
+
+/-- queued and transmitted elements -/
+structure El (c : Conn) : Prop where
+  txN : ∀ r ∈ c.tx, RecOk r
+  qN : ∀ e ∈ c.queue, negItem e.item = true →
+    e.owner = .smStrophe ∧ ItemOk e.item e.snap ∧ (c.state = .connected → FlagsNow c e.snap)
+  smN : ∀ e ∈ c.sm.queue, negItem e.2.item = false
+
+structure Inv (u ut : Option Nat) (c : Conn) : Prop where
+  g : G u c
+  ph : Ph u ut c
+  me : Me u ut c
+  el : El c
+
+/-! ### monotonicity: handlers / timers removed or re-stamped, everything else the same -/
+
+structure Mono (c c' : Conn) : Prop where
+  hs : ∀ h' ∈ c'.handlers, ∃ h ∈ c.handlers, h'.fn = h.fn ∧ h'.uid = h.uid ∧ h'.ud = h.ud ∧ h'.user = h.user
+  ids : ∀ h' ∈ c'.idHandlers, ∃ h ∈ c.idHandlers, h'.fn = h.fn ∧ h'.user = h.user
+  tm : ∀ t' ∈ c'.timed, ∃ t ∈ c.timed, t'.fn = t.fn ∧ t'.uid = t.uid
+  smq : ∀ e ∈ c'.sm.queue, e ∈ c.sm.queue
+  cfg : same_cfg[c, c']
+  tls : same_tls[c, c']
+  oh : c'.openHandler = c.openHandler
+  p : same_p[c, c']
+  en : c'.sm.enabled = c.sm.enabled
+  sasl : c'.saslSupport = c.saslSupport
+  off : c'.g.offeredMechs = c.g.offeredMechs
+
+theorem NoH.mono {u : Option Nat} {p : HFun → Bool} {c c' : Conn} (h : NoH u p c)
+    (hs : ∀ h' ∈ c'.handlers, ∃ h ∈ c.handlers, h'.fn = h.fn ∧ h'.uid = h.uid ∧ h'.ud = h.ud ∧ h'.user = h.user) :
+    NoH u p c' := by
+  intro h' hm hp
+  obtain ⟨x, hx, e1, e2, _, _⟩ := hs h' hm
+  rw [e2]; exact h x hx (by rw [← e1]; exact hp)
+
+theorem NoTM.mono {ut : Option Nat} {c c' : Conn} (h : NoTM ut c)
+    (tm : ∀ t' ∈ c'.timed, ∃ t ∈ c.timed, t'.fn = t.fn ∧ t'.uid = t.uid) : NoTM ut c' := by
+  intro t' hm hp
+  obtain ⟨x, hx, e1, e2⟩ := tm t' hm
+  rw [e2]; exact h x hx (by rw [← e1]; exact hp)
+
+theorem LateC.mono {c c' : Conn} (m : Mono c c') (h : LateC c') : LateC c := by
+  rcases h with ⟨x, hx, hp⟩ | ⟨x, hx, hp⟩ | h | h | h
+  · obtain ⟨y, hy, e, _⟩ := m.hs x hx; exact .inl ⟨y, hy, by rw [← e]; exact hp⟩
+  · obtain ⟨y, hy, e, _⟩ := m.ids x hx; exact .inr (.inl ⟨y, hy, by rw [← e]; exact hp⟩)
+  · exact .inr (.inr (.inl (by rw [← m.oh]; exact h)))
+  · exact .inr (.inr (.inr (.inl (by rw [← m.oh]; exact h))))
+  · exact .inr (.inr (.inr (.inr (by rw [← m.en]; exact h))))
+
+theorem Fr.mono {c c' : Conn} (m : Mono c c') (h : Fr c') : Fr c := by
+  unfold Fr at *; rw [← m.p.1, ← m.p.2]; exact h
+
+theorem NT.congr {c c' : Conn} (h : NT c) (e1 : c'.cert = c.cert) (e2 : c'.g.offeredMechs = c.g.offeredMechs)
+    (e3 : c'.saslSupport = c.saslSupport) : NT c' := by
+  unfold NT at *; rw [e1, e2, e3]; exact h
 
 theorem Safe.same {c c' : Conn} (s : Safe c) (e1 : c'.state = c.state) (e2 : c'.tlsMandatory = c.tlsMandatory)
     (e3 : c'.hasTls = c.hasTls) (e4 : c'.secured = c.secured) : Safe c' := by
   unfold Safe Gate at *; rw [e1, e2, e3, e4]; exact s
 
-/-- weakening: a state that is fine with no `<proceed/>` handler running is fine with one running -/
-theorem H.weaken {u : Option Nat} {c : Conn} (h : H none c) : H u c :=
-  { h with noT := fun hs x hx hf => absurd (h.noT hs x hx hf) (by simp) }
+theorem G.mono {u : Option Nat} {c c' : Conn} (m : Mono c c') (io : c'.queue = c.queue) (h : G u c) : G u c' := by
+  obtain ⟨⟨m1, m2, m3, m4, m5⟩, ⟨t1, t2, t3, t4⟩, i1⟩ := (⟨m.cfg, m.tls, io⟩ : _ ∧ _ ∧ _)
+  refine ⟨by rw [t1]; exact h.nc, ?_, ?_, ?_, ?_, ?_, ?_, ?_⟩
+  · intro x hx hu
+    obtain ⟨y, hy, e1, _, _, e4⟩ := m.hs x hx
+    rw [e1]; exact h.userH y hy (by rw [← e4]; exact hu)
+  · intro x hx hu
+    obtain ⟨y, hy, e1, e4⟩ := m.ids x hx
+    rw [e1]; exact h.userI y hy (by rw [← e4]; exact hu)
+  · intro x hx hp
+    obtain ⟨y, hy, e1, _, e3, _⟩ := m.hs x hx
+    rw [e3]; exact h.ud0 y hy (by rw [← e1]; exact hp)
+  · intro x hx x2 hx2 hp he
+    obtain ⟨y, hy, e1, e2, _, _⟩ := m.hs x hx
+    obtain ⟨y2, hy2, f1, f2, _, _⟩ := m.hs x2 hx2
+    rw [e2, f2]; exact h.uniq y hy y2 hy2 (by rw [← e1]; exact hp) (by rw [← e1, ← f1]; exact he)
+  · rw [t1, m1, i1, t2, t3]; exact h.q1
+  · rw [t3]; exact fun hs => (h.noT hs).mono m.hs
+  · rcases h.gated with ⟨n1, n2, n3, n4⟩ | s
+    · refine .inl ⟨?_, ?_, by rw [m.oh]; exact n3, by rw [m.oh]; exact n4⟩
+      · intro x hx
+        obtain ⟨y, hy, e1, _⟩ := m.hs x hx
+        rw [e1]; exact n1 y hy
+      · intro x hx
+        obtain ⟨y, hy, e1, _⟩ := m.ids x hx
+        rw [e1]; exact n2 y hy
+    · exact .inr (s.same t1 m1 t2 t3)
 
-/-! ### primitives -/
+theorem Ph.mono {u ut : Option Nat} {c c' : Conn} (m : Mono c c') (h : Ph u ut c) : Ph u ut c' := by
+  refine ⟨?_, ?_, ?_, ?_, ?_, ?_, ?_, ?_⟩
+  · intro x hx
+    obtain ⟨y, hy, e1, _⟩ := m.ids x hx
+    rw [e1]; exact h.idFn y hy
+  · intro x hx x2 hx2 p1 p2 n1 n2
+    obtain ⟨y, hy, e1, e2, _, _⟩ := m.hs x hx
+    obtain ⟨y2, hy2, f1, f2, _, _⟩ := m.hs x2 hx2
+    rw [e2, f2]
+    exact h.uniqS y hy y2 hy2 (by rw [← e1]; exact p1) (by rw [← f1]; exact p2) (by rw [← e2]; exact n1)
+      (by rw [← f2]; exact n2)
+  · intro x hx x2 hx2 p1 p2
+    obtain ⟨y, hy, e1, e2⟩ := m.tm x hx
+    obtain ⟨y2, hy2, f1, f2⟩ := m.tm x2 hx2
+    rw [e2, f2]; exact h.uniqTM y hy y2 hy2 (by rw [← e1]; exact p1) (by rw [← f1]; exact p2)
+  · rcases h.excl with ⟨a, b⟩ | ⟨⟨a, a'⟩, b⟩ | ⟨⟨a, a'⟩, b⟩
+    · exact .inl ⟨a.mono m.hs, b.mono m.hs⟩
+    · exact .inr (.inl ⟨⟨a.mono m.hs, a'.mono m.tm⟩, b.mono m.hs⟩)
+    · exact .inr (.inr ⟨⟨a.mono m.hs, a'.mono m.tm⟩, b.mono m.hs⟩)
+  · intro f
+    obtain ⟨a, b, d, e⟩ := h.e5 (f.mono m)
+    exact ⟨a.mono m.hs, b.mono m.tm, d.mono m.hs, e.mono m.hs⟩
+  · intro f
+    obtain ⟨a, b, d, e, o⟩ := h.e6 (f.mono m)
+    exact ⟨a.mono m.hs, b.mono m.tm, d.mono m.hs, e.mono m.hs, by unfold OpenPre at *; rw [m.oh]; exact o⟩
+  · rw [m.tls.1, m.en]; exact h.e7
+  · rw [m.tls.1, m.p.1, m.p.2]; exact h.frp
 
-theorem H_addHandler {u : Option Nat} {c : Conn} (h : H u c) (fn : HFun) (ud : Nat) (ns name type : Option Bytes)
-    (user : Bool) (hTc : fn = hT → c.secured = false ∧ ud = 0) (hp : postFn fn = true → Safe c)
-    (hu : user = true → fn = .userAll) : H u (addHandler c fn ud ns name type user) := by
+theorem Me.mono {u ut : Option Nat} {c c' : Conn} (m : Mono c c') (h : Me u ut c) : Me u ut c' := by
+  have nt : NT c → NT c' := fun n => n.congr m.cfg.2.2.2.2 m.off m.sasl
+  refine ⟨?_, ?_, ?_⟩
+  · rw [m.tls.1]; intro hl
+    rcases h.i1 hl with n | ⟨a, b, d, e⟩
+    · exact .inl (nt n)
+    · exact .inr ⟨a.mono m.hs, b.mono m.tm, d.mono m.hs, fun f => by
+        have := e (f.mono m); unfold OpenPre at *; rw [m.oh]; exact this⟩
+  · rw [m.tls.1, m.sasl]; intro hl
+    rcases h.i2 hl with a | n
+    · exact .inl (a.mono m.hs)
+    · exact .inr fun x => nt (n x)
+  · unfold KMask; rw [m.sasl]; exact h.k
+
+theorem El.mono {c c' : Conn} (m : Mono c c') (io : same_io[c, c']) (h : El c) : El c' := by
+  obtain ⟨m1, m2, m3, _, _⟩ := m.cfg
+  refine ⟨by rw [io.2]; exact h.txN, ?_, fun e he => h.smN e (m.smq e he)⟩
+  rw [io.1, m.tls.1]; unfold FlagsNow; rw [m1, m2, m3]; exact h.qN
+
+theorem Inv.mono {u ut : Option Nat} {c c' : Conn} (h : Inv u ut c) (m : Mono c c') (io : same_io[c, c']) :
+    Inv u ut c' :=
+  ⟨h.g.mono m io.1, h.ph.mono m, h.me.mono m, h.el.mono m io⟩
+
+/-- everything the invariant reads is unchanged -/
+def SameAll (c c' : Conn) : Prop :=
+  c'.handlers = c.handlers ∧ c'.idHandlers = c.idHandlers ∧ c'.timed = c.timed ∧ c'.sm.queue = c.sm.queue ∧
+  same_cfg[c, c'] ∧ same_tls[c, c'] ∧ same_io[c, c'] ∧ c'.openHandler = c.openHandler ∧ same_p[c, c'] ∧
+  c'.sm.enabled = c.sm.enabled ∧ c'.saslSupport = c.saslSupport ∧ c'.g.offeredMechs = c.g.offeredMechs
+
+theorem Mono.of_same {c c' : Conn} (s : SameAll c c') : Mono c c' := by
+  obtain ⟨a1, a2, a3, a4, a5, a6, a7, a8, a9, a10, a11, a12⟩ := s
+  exact ⟨fun h hm => ⟨h, a1 ▸ hm, rfl, rfl, rfl, rfl⟩, fun h hm => ⟨h, a2 ▸ hm, rfl, rfl⟩,
+    fun t hm => ⟨t, a3 ▸ hm, rfl, rfl⟩, fun e he => a4 ▸ he, a5, a6, a8, a9, a10, a11, a12⟩
+
+theorem Inv.same {u ut : Option Nat} {c c' : Conn} (h : Inv u ut c) (s : SameAll c c') : Inv u ut c' :=
+  h.mono (Mono.of_same s) s.2.2.2.2.2.2.1
+
+theorem NoH_addHandler {u : Option Nat} {p : HFun → Bool} {c : Conn} {fn : HFun} {ud : Nat}
+    {ns name type : Option Bytes} {user : Bool} (h : NoH u p c) (hp : p fn = false) :
+    NoH u p (addHandler c fn ud ns name type user) := by
+  intro x hx hpx
+  rcases mem_addHandler hx with hx | ⟨hx, _⟩
+  · exact h x hx hpx
+  · subst hx; simp [hp] at hpx
+
+theorem NoH_of_addHandler {u : Option Nat} {p : HFun → Bool} {c : Conn} {fn : HFun} {ud : Nat}
+    {ns name type : Option Bytes} {user : Bool} (h : NoH u p (addHandler c fn ud ns name type user)) :
+    NoH u p c := by
+  intro x hx hpx
+  refine h x ?_ hpx
+  rw [addHandler_handlers]; split <;> simp [hx]
+
+theorem NoTM_same {ut : Option Nat} {c c' : Conn} (e : c'.timed = c.timed) (h : NoTM ut c) : NoTM ut c' := by
+  unfold NoTM; rw [e]; exact h
+
+theorem Inv_addHandler {u ut : Option Nat} {c : Conn} (h : Inv u ut c) (fn : HFun) (ud : Nat)
+    (ns name type : Option Bytes) (user : Bool)
+    (hF : isF fn = true → ud = 0 ∧ NoH u isT c ∧ NoH u isS c ∧ ¬Fr c ∧ ¬LateC c ∧ (c.state ≠ .disconnected → NT c))
+    (hT : isT fn = true → ud = 0 ∧ c.secured = false ∧ NoH u isF c ∧ NoTM ut c ∧ NoH u isS c ∧ ¬Fr c ∧ ¬LateC c ∧
+      (c.state ≠ .disconnected → NT c))
+    (hS : isS fn = true → Safe c ∧ NoH u isF c ∧ NoTM ut c ∧ NoH u isT c ∧ NoH u isS c ∧ ¬Fr c ∧ ¬LateC c ∧
+      (c.state ≠ .disconnected → c.saslSupport &&& Gen.saslMaskPlain ≠ 0 → NT c))
+    (hL : isLate fn = true → Safe c ∧ LateC c)
+    (hu : user = true → fn = .userAll) : Inv u ut (addHandler c fn ud ns name type user) := by
   have hs : Safe c → Safe (addHandler c fn ud ns name type user) := fun s => s.same (by simp) (by simp) (by simp) (by simp)
-  refine ⟨by simpa using h.nc, by simpa using h.tx1, by simpa using h.txE, by simpa using h.q1,
-    by simpa using h.qE, by simpa using h.smq, ?_, ?_, ?_, ?_, by simpa using h.userI, ?_⟩
-  · intro hsec x hx hf
-    rcases mem_addHandler hx with hx | ⟨hx, _⟩
-    · exact h.noT (by simpa using hsec) x hx hf
-    · subst hx
-      have := (hTc (by simpa using hf)).1
-      simp [this] at hsec
-  · intro x hx hf
-    rcases mem_addHandler hx with hx | ⟨hx, _⟩
-    · exact h.tUd x hx hf
-    · subst hx; simpa using (hTc (by simpa using hf)).2
-  · intro x hx y hy hfx hfy
-    rcases mem_addHandler hx with hx | ⟨hx, hn⟩ <;> rcases mem_addHandler hy with hy | ⟨hy, hn'⟩
-    · exact h.tUniq x hx y hy hfx hfy
-    · exfalso
-      subst hy
-      have e : fn = hT := by simpa using hfy
-      rw [List.any_eq_false] at hn'
-      exact hn' x hx (by simp [e, hfx, h.tUd x hx hfx, (hTc e).2])
-    · exfalso
-      subst hx
-      have e : fn = hT := by simpa using hfx
-      rw [List.any_eq_false] at hn
-      exact hn y hy (by simp [e, hfy, h.tUd y hy hfy, (hTc e).2])
-    · rw [hx, hy]
+  have hfr : Fr (addHandler c fn ud ns name type user) → Fr c := by unfold Fr; simp
+  have hnt : NT c → NT (addHandler c fn ud ns name type user) := fun n => n.congr (by simp) (by simp) (by simp)
+  have hntm : NoTM ut c → NoTM ut (addHandler c fn ud ns name type user) := NoTM_same (by simp)
+  have hop : OpenPre (addHandler c fn ud ns name type user) ↔ OpenPre c := by unfold OpenPre; simp
+  have hlate : LateC (addHandler c fn ud ns name type user) → LateC c := by
+    rintro (⟨x, hx, hp⟩ | ⟨x, hx, hp⟩ | h | h | h)
+    · rcases mem_addHandler hx with hx | ⟨hx, _⟩
+      · exact .inl ⟨x, hx, hp⟩
+      · subst hx; exact (hL (by simpa using hp)).2
+    · exact .inr (.inl ⟨x, by simpa using hx, hp⟩)
+    · exact .inr (.inr (.inl (by simpa using h)))
+    · exact .inr (.inr (.inr (.inl (by simpa using h))))
+    · exact .inr (.inr (.inr (.inr (by simpa using h))))
+  -- the new handler changes `NoH u p` only for its own class
+  have tr : ∀ p : HFun → Bool, p fn = false → NoH u p c → NoH u p (addHandler c fn ud ns name type user) :=
+    fun p hp n => NoH_addHandler n hp
+  refine ⟨⟨by simpa using h.g.nc, ?_, by simpa using h.g.userI, ?_, ?_, by simpa using h.g.q1, ?_, ?_⟩,
+    ⟨by simpa using h.ph.idFn, ?_, by simpa using h.ph.uniqTM, ?_, ?_, ?_, by simpa using h.ph.e7,
+      by simpa using h.ph.frp⟩, ⟨?_, ?_, by simpa [KMask] using h.me.k⟩,
+    ⟨by simpa using h.el.txN, by simpa [FlagsNow] using h.el.qN, by simpa using h.el.smN⟩⟩
   · intro x hx hxu
     rcases mem_addHandler hx with hx | ⟨hx, _⟩
-    · exact h.userH x hx hxu
+    · exact h.g.userH x hx hxu
     · subst hx; simpa using hu (by simpa using hxu)
-  · by_cases hpf : postFn fn = true
-    · exact .inr (hs (hp hpf))
-    · rcases h.post with ⟨n1, n2, n3, n4⟩ | s
+  · intro x hx hp
+    rcases mem_addHandler hx with hx | ⟨hx, _⟩
+    · exact h.g.ud0 x hx hp
+    · subst hx
+      simp only [newHandler_proj, Bool.or_eq_true] at hp ⊢
+      rcases hp with hp | hp
+      · exact (hF hp).1
+      · exact (hT hp).1
+  · intro x hx y hy hp he
+    have key : ∀ z ∈ c.handlers, (isF fn || isT fn) = true → z.fn = fn →
+        c.handlers.any (fun h => h.fn = fn ∧ h.ud = ud) = false → False := by
+      intro z hz hp he hn
+      rw [List.any_eq_false] at hn
+      refine hn z hz ?_
+      have hud : ud = 0 := by
+        simp only [Bool.or_eq_true] at hp
+        rcases hp with hp | hp
+        · exact (hF hp).1
+        · exact (hT hp).1
+      simp [he, hud, h.g.ud0 z hz (by rw [he]; exact hp)]
+    rcases mem_addHandler hx with hx | ⟨hx, hn⟩ <;> rcases mem_addHandler hy with hy | ⟨hy, hn'⟩
+    · exact h.g.uniq x hx y hy hp he
+    · subst hy
+      have he' : x.fn = fn := by simpa using he
+      exact (key x hx (by rw [← he']; exact hp) he' hn').elim
+    · subst hx
+      exact (key y hy (by simpa using hp) (by simpa using he.symm) hn).elim
+    · rw [hx, hy]
+  · intro hsec x hx hp
+    rcases mem_addHandler hx with hx | ⟨hx, _⟩
+    · exact h.g.noT (by simpa using hsec) x hx hp
+    · subst hx
+      have := (hT (by simpa using hp)).2.1
+      simp [this] at hsec
+  · by_cases hg : gatedFn fn = true
+    · refine .inr (hs ?_)
+      simp only [gatedFn, Bool.or_eq_true] at hg
+      rcases hg with hg | hg
+      · exact (hS hg).1
+      · exact (hL hg).1
+    · rcases h.g.gated with ⟨n1, n2, n3, n4⟩ | s
       · refine .inl ⟨?_, by simpa using n2, by simpa using n3, by simpa using n4⟩
         intro x hx
         rcases mem_addHandler hx with hx | ⟨hx, _⟩
         · exact n1 x hx
-        · subst hx; simpa using hpf
+        · subst hx; simpa using hg
       · exact .inr (hs s)
+  · intro x hx y hy px py nx ny
+    rcases mem_addHandler hx with hx | ⟨hx, _⟩ <;> rcases mem_addHandler hy with hy | ⟨hy, _⟩
+    · exact h.ph.uniqS x hx y hy px py nx ny
+    · subst hy
+      exact absurd ((hS (by simpa using py)).2.2.2.2.1 x hx px) nx
+    · subst hx
+      exact absurd ((hS (by simpa using px)).2.2.2.2.1 y hy py) ny
+    · rw [hx, hy]
+  · -- excl
+    cases hf : isF fn
+    · cases ht : isT fn
+      · cases hsf : isS fn
+        · rcases h.ph.excl with ⟨a, b⟩ | ⟨⟨a, a'⟩, b⟩ | ⟨⟨a, a'⟩, b⟩
+          · exact .inl ⟨tr _ ht a, tr _ hsf b⟩
+          · exact .inr (.inl ⟨⟨tr _ hf a, hntm a'⟩, tr _ hsf b⟩)
+          · exact .inr (.inr ⟨⟨tr _ hf a, hntm a'⟩, tr _ ht b⟩)
+        · obtain ⟨_, a, a', b, _⟩ := hS hsf
+          exact .inr (.inr ⟨⟨tr _ hf a, hntm a'⟩, tr _ ht b⟩)
+      · obtain ⟨_, _, a, a', b, _⟩ := hT ht
+        have hsf : isS fn = false := isS_of_isT ht
+        exact .inr (.inl ⟨⟨tr _ hf a, hntm a'⟩, tr _ hsf b⟩)
+    · obtain ⟨_, a, b, _⟩ := hF hf
+      have ht : isT fn = false := isT_of_isF hf
+      have hsf : isS fn = false := isS_of_isF hf
+      exact .inl ⟨tr _ ht a, tr _ hsf b⟩
+  · -- e5
+    intro f
+    have f' := hfr f
+    have hf : isF fn = false := by cases hf : isF fn; rfl; exact absurd f' (hF hf).2.2.2.1
+    have ht : isT fn = false := by cases ht : isT fn; rfl; exact absurd f' (hT ht).2.2.2.2.2.1
+    have hsf : isS fn = false := by cases hsf : isS fn; rfl; exact absurd f' (hS hsf).2.2.2.2.2.1
+    obtain ⟨a, b, d, e⟩ := h.ph.e5 f'
+    exact ⟨tr _ hf a, hntm b, tr _ ht d, tr _ hsf e⟩
+  · -- e6
+    intro l
+    have l' := hlate l
+    have hf : isF fn = false := by cases hf : isF fn; rfl; exact absurd l' (hF hf).2.2.2.2.1
+    have ht : isT fn = false := by cases ht : isT fn; rfl; exact absurd l' (hT ht).2.2.2.2.2.2.1
+    have hsf : isS fn = false := by cases hsf : isS fn; rfl; exact absurd l' (hS hsf).2.2.2.2.2.2.1
+    obtain ⟨a, b, d, e, o⟩ := h.ph.e6 l'
+    exact ⟨tr _ hf a, hntm b, tr _ ht d, tr _ hsf e, fun x => o (hop.1 x)⟩
+  · -- i1
+    intro hl
+    have hl' : c.state ≠ .disconnected := by simpa using hl
+    cases hf : isF fn
+    · cases ht : isT fn
+      · rcases h.me.i1 hl' with n | ⟨a, b, d, e⟩
+        · exact .inl (hnt n)
+        · exact .inr ⟨tr _ hf a, hntm b, tr _ ht d, fun f => fun x => e (hfr f) (hop.1 x)⟩
+      · exact .inl (hnt ((hT ht).2.2.2.2.2.2.2 hl'))
+    · exact .inl (hnt ((hF hf).2.2.2.2.2 hl'))
+  · -- i2
+    intro hl
+    have hl' : c.state ≠ .disconnected := by simpa using hl
+    cases hsf : isS fn
+    · rcases h.me.i2 hl' with a | n
+      · exact .inl (tr _ hsf a)
+      · exact .inr (by simpa using fun x => hnt (n x))
+    · exact .inr (by simpa using fun x => hnt ((hS hsf).2.2.2.2.2.2.2 hl' x))
 
-theorem H_addIdHandler {u : Option Nat} {c : Conn} (h : H u c) (fn : HFun) (id : Bytes) (user : Bool)
-    (hp : postFn fn = true → Safe c) (hu : user = true → fn = .userAll) : H u (addIdHandler c fn id user) := by
+theorem Inv_addIdHandler {u ut : Option Nat} {c : Conn} (h : Inv u ut c) (fn : HFun) (id : Bytes) (user : Bool)
+    (hok : idFnOk fn = true) (hL : isLate fn = true → Safe c ∧ LateC c) (hu : user = true → fn = .userAll) :
+    Inv u ut (addIdHandler c fn id user) := by
   have hs : Safe c → Safe (addIdHandler c fn id user) := fun s => s.same (by simp) (by simp) (by simp) (by simp)
-  refine ⟨by simpa using h.nc, by simpa using h.tx1, by simpa using h.txE, by simpa using h.q1,
-    by simpa using h.qE, by simpa using h.smq, by simpa using h.noT, by simpa using h.tUd,
-    by simpa using h.tUniq, by simpa using h.userH, ?_, ?_⟩
+  have hS : isS fn = false := by
+    cases fn with
+    | userAll => rfl
+    | sys k => cases k <;> simp_all [idFnOk, isS]
+  have nh : ∀ p, NoH u p c → NoH u p (addIdHandler c fn id user) := fun p n => by unfold NoH at *; simpa using n
+  have ntm : NoTM ut c → NoTM ut (addIdHandler c fn id user) := NoTM_same (by simp)
+  have hlate : LateC (addIdHandler c fn id user) → LateC c := by
+    rintro (⟨x, hx, hp⟩ | ⟨x, hx, hp⟩ | h | h | h)
+    · exact .inl ⟨x, by simpa using hx, hp⟩
+    · rcases mem_addIdHandler hx with hx | ⟨hx, _⟩
+      · exact .inr (.inl ⟨x, hx, hp⟩)
+      · exact (hL (by rw [← hx]; exact hp)).2
+    · exact .inr (.inr (.inl (by simpa using h)))
+    · exact .inr (.inr (.inr (.inl (by simpa using h))))
+    · exact .inr (.inr (.inr (.inr (by simpa using h))))
+  have hnt : NT c → NT (addIdHandler c fn id user) := fun n => n.congr (by simp) (by simp) (by simp)
+  refine ⟨⟨by simpa using h.g.nc, by simpa using h.g.userH, ?_, by simpa using h.g.ud0, by simpa using h.g.uniq,
+      by simpa using h.g.q1, fun hsec => nh _ (h.g.noT (by simpa using hsec)), ?_⟩,
+    ⟨?_, by simpa using h.ph.uniqS, by simpa using h.ph.uniqTM, ?_, ?_, ?_, by simpa using h.ph.e7,
+      by simpa using h.ph.frp⟩, ⟨?_, ?_, by simpa [KMask] using h.me.k⟩,
+    ⟨by simpa using h.el.txN, by simpa [FlagsNow] using h.el.qN, by simpa using h.el.smN⟩⟩
   · intro x hx hxu
     rcases mem_addIdHandler hx with hx | ⟨hx, hx2⟩
-    · exact h.userI x hx hxu
+    · exact h.g.userI x hx hxu
     · rw [hx]; exact hu (by rw [← hx2]; exact hxu)
-  · by_cases hpf : postFn fn = true
-    · exact .inr (hs (hp hpf))
-    · rcases h.post with ⟨n1, n2, n3, n4⟩ | s
+  · by_cases hg : isLate fn = true
+    · exact .inr (hs (hL hg).1)
+    · rcases h.g.gated with ⟨n1, n2, n3, n4⟩ | s
       · refine .inl ⟨by simpa using n1, ?_, by simpa using n3, by simpa using n4⟩
         intro x hx
         rcases mem_addIdHandler hx with hx | ⟨hx, _⟩
         · exact n2 x hx
-        · rw [hx]; simpa using hpf
+        · rw [hx]; simp [gatedFn, hS, hg]
       · exact .inr (hs s)
+  · intro x hx
+    rcases mem_addIdHandler hx with hx | ⟨hx, _⟩
+    · exact h.ph.idFn x hx
+    · rw [hx]; exact hok
+  · rcases h.ph.excl with ⟨a, b⟩ | ⟨⟨a, a'⟩, b⟩ | ⟨⟨a, a'⟩, b⟩
+    · exact .inl ⟨nh _ a, nh _ b⟩
+    · exact .inr (.inl ⟨⟨nh _ a, ntm a'⟩, nh _ b⟩)
+    · exact .inr (.inr ⟨⟨nh _ a, ntm a'⟩, nh _ b⟩)
+  · intro f
+    obtain ⟨a, b, d, e⟩ := h.ph.e5 (by unfold Fr at *; simpa using f)
+    exact ⟨nh _ a, ntm b, nh _ d, nh _ e⟩
+  · intro l
+    obtain ⟨a, b, d, e, o⟩ := h.ph.e6 (hlate l)
+    exact ⟨nh _ a, ntm b, nh _ d, nh _ e, by unfold OpenPre at *; simpa using o⟩
+  · intro hl
+    rcases h.me.i1 (by simpa using hl) with n | ⟨a, b, d, e⟩
+    · exact .inl (hnt n)
+    · exact .inr ⟨nh _ a, ntm b, nh _ d, by unfold Fr OpenPre at *; simpa using e⟩
+  · intro hl
+    rcases h.me.i2 (by simpa using hl) with a | n
+    · exact .inl (nh _ a)
+    · exact .inr (by simpa using fun x => hnt (n x))
 
-theorem H_addTimed {u : Option Nat} {c : Conn} (h : H u c) (fn : TFun) (p : Nat) (us : Bool) :
-    H u (addTimed c fn p us) := h.same (by simp [SameH])
-theorem H_delTimed {u : Option Nat} {c : Conn} (h : H u c) (fn : TFun) : H u (delTimed c fn) :=
-  h.same (by simp [SameH])
-theorem H_resetTimed {u : Option Nat} {c : Conn} (h : H u c) : H u (resetTimed c) := h.same (by simp [SameH])
-theorem H_notify {u : Option Nat} {c : Conn} (h : H u c) (e : Ev) : H u (notify c e) := h.same (by simp [SameH])
+theorem Inv_addTimed {u ut : Option Nat} {c : Conn} (h : Inv u ut c) (fn : TFun) (p : Nat) (us : Bool)
+    (hTM : fn = .missingFeatures → NoH u isT c ∧ NoH u isS c ∧ ¬Fr c ∧ ¬LateC c ∧ (c.state ≠ .disconnected → NT c)) :
+    Inv u ut (addTimed c fn p us) := by
+  have nh : ∀ p', NoH u p' c → NoH u p' (addTimed c fn p us) := fun p' n => by unfold NoH at *; simpa using n
+  have ntm : fn ≠ .missingFeatures → NoTM ut c → NoTM ut (addTimed c fn p us) := by
+    intro hne n t ht hf
+    rcases mem_addTimed ht with ht | ⟨ht, _⟩
+    · exact n t ht hf
+    · exact absurd (ht ▸ hf) hne
+  have hlate : LateC (addTimed c fn p us) → LateC c := by unfold LateC; simp
+  have hfr : Fr (addTimed c fn p us) → Fr c := by unfold Fr; simp
+  have hnt : NT c → NT (addTimed c fn p us) := fun n => n.congr (by simp) (by simp) (by simp)
+  refine ⟨⟨by simpa using h.g.nc, by simpa using h.g.userH, by simpa using h.g.userI, by simpa using h.g.ud0,
+      by simpa using h.g.uniq, by simpa using h.g.q1, fun hsec => nh _ (h.g.noT (by simpa using hsec)), ?_⟩,
+    ⟨by simpa using h.ph.idFn, by simpa using h.ph.uniqS, ?_, ?_, ?_, ?_, by simpa using h.ph.e7,
+      by simpa using h.ph.frp⟩, ⟨?_, ?_, by simpa [KMask] using h.me.k⟩,
+    ⟨by simpa using h.el.txN, by simpa [FlagsNow] using h.el.qN, by simpa using h.el.smN⟩⟩
+  · rcases h.g.gated with n | s
+    · exact .inl (by unfold NotGated at *; simpa using n)
+    · exact .inr (s.same (by simp) (by simp) (by simp) (by simp))
+  · intro t1 h1 t2 h2 f1 f2
+    rcases mem_addTimed h1 with h1 | ⟨h1, u1, hn⟩ <;> rcases mem_addTimed h2 with h2 | ⟨h2, u2, hn'⟩
+    · exact h.ph.uniqTM t1 h1 t2 h2 f1 f2
+    · rw [List.any_eq_false] at hn'
+      exact absurd (by simp [f1, ← h2, f2]) (hn' t1 h1)
+    · rw [List.any_eq_false] at hn
+      exact absurd (by simp [f2, ← h1, f1]) (hn t2 h2)
+    · rw [u1, u2]
+  · by_cases hf : fn = .missingFeatures
+    · obtain ⟨a, b, _⟩ := hTM hf
+      exact .inl ⟨nh _ a, nh _ b⟩
+    · rcases h.ph.excl with ⟨a, b⟩ | ⟨⟨a, a'⟩, b⟩ | ⟨⟨a, a'⟩, b⟩
+      · exact .inl ⟨nh _ a, nh _ b⟩
+      · exact .inr (.inl ⟨⟨nh _ a, ntm hf a'⟩, nh _ b⟩)
+      · exact .inr (.inr ⟨⟨nh _ a, ntm hf a'⟩, nh _ b⟩)
+  · intro f
+    have f' := hfr f
+    have hf : fn ≠ .missingFeatures := fun e => (hTM e).2.2.1 f'
+    obtain ⟨a, b, d, e⟩ := h.ph.e5 f'
+    exact ⟨nh _ a, ntm hf b, nh _ d, nh _ e⟩
+  · intro l
+    have l' := hlate l
+    have hf : fn ≠ .missingFeatures := fun e => (hTM e).2.2.2.1 l'
+    obtain ⟨a, b, d, e, o⟩ := h.ph.e6 l'
+    exact ⟨nh _ a, ntm hf b, nh _ d, nh _ e, by unfold OpenPre at *; simpa using o⟩
+  · intro hl
+    have hl' : c.state ≠ .disconnected := by simpa using hl
+    by_cases hf : fn = .missingFeatures
+    · exact .inl (hnt ((hTM hf).2.2.2.2 hl'))
+    · rcases h.me.i1 hl' with n | ⟨a, b, d, e⟩
+      · exact .inl (hnt n)
+      · exact .inr ⟨nh _ a, ntm hf b, nh _ d, by unfold Fr OpenPre at *; simpa using e⟩
+  · intro hl
+    rcases h.me.i2 (by simpa using hl) with a | n
+    · exact .inl (nh _ a)
+    · exact .inr (by simpa using fun x => hnt (n x))
 
-theorem H_prepareReset {u : Option Nat} {c : Conn} (h : H u c) (oh : OpenH)
-    (hp : oh = .openSasl ∨ oh = .openCompress → Safe c) : H u (prepareReset c oh) := by
-  have hs : Safe c → Safe (prepareReset c oh) := fun s => s.same (by simp) (by simp) (by simp) (by simp)
-  refine ⟨by simpa using h.nc, by simpa using h.tx1, by simpa using h.txE, by simpa using h.q1,
-    by simpa using h.qE, by simpa using h.smq, by simpa using h.noT, by simpa using h.tUd,
-    by simpa using h.tUniq, by simpa using h.userH, by simpa using h.userI, ?_⟩
-  by_cases ho : oh = .openSasl ∨ oh = .openCompress
-  · exact .inr (hs (hp ho))
-  · rcases h.post with ⟨n1, n2, _, _⟩ | s
-    · exact .inl ⟨by simpa using n1, by simpa using n2, by simpa using fun e => ho (.inl e),
-        by simpa using fun e => ho (.inr e)⟩
-    · exact .inr (hs s)
+theorem Inv_delTimed {u ut : Option Nat} {c : Conn} (h : Inv u ut c) (fn : TFun) : Inv u ut (delTimed c fn) := by
+  refine h.mono ⟨fun x hx => ⟨x, by simpa using hx, rfl, rfl, rfl, rfl⟩, fun x hx => ⟨x, by simpa using hx, rfl, rfl⟩,
+    ?_, by simp, by simp, by simp, by simp, by simp, by simp, by simp, by simp⟩ (by simp)
+  intro t ht
+  simp only [delTimed_frame, List.mem_filter] at ht
+  exact ⟨t, ht.1, rfl, rfl⟩
 
-theorem H_pushRaw {u : Option Nat} {c : Conn} (h : H u c) (it : Item) (o : Owner)
-    (h1 : c.state = .connected → c.tlsMandatory = true → it.authBearing = true →
-      c.hasTls = true ∧ c.secured = true)
-    (hE : ElemOk it (ownerOf c o) (snapOf c)) : H u (pushRaw c it o) := by
-  have hs : Safe c → Safe (pushRaw c it o) := fun s => s.same (by simp) (by simp) (by simp) (by simp)
-  refine ⟨by simpa using h.nc, by simpa using h.tx1, by simpa using h.txE, ?_, ?_,
-    by simpa using h.smq, by simpa using h.noT, by simpa using h.tUd,
-    by simpa using h.tUniq, by simpa using h.userH, by simpa using h.userI, ?_⟩
-  · intro hc e he hm hb
-    simp only [pushRaw_frame] at hc ⊢
-    rcases mem_pushRaw he with he | ⟨hsn, ⟨hi, _⟩ | ⟨hi, _⟩⟩
-    · exact h.q1 hc e he hm hb
-    · rw [hsn] at hm; rw [hi] at hb; exact h1 hc hm hb
-    · rw [hi] at hb; simp [Item.authBearing] at hb
-  · intro e he
-    rcases mem_pushRaw he with he | ⟨hsn, ⟨hi, ho⟩ | ⟨hi, _⟩⟩
-    · exact h.qE e he
-    · rw [hsn, hi, ho]; exact hE
-    · rw [hi]; intro _; simp
-  · rcases h.post with ⟨n1, n2, n3, n4⟩ | s
-    · exact .inl ⟨by simpa using n1, by simpa using n2, by simpa using n3, by simpa using n4⟩
-    · exact .inr (hs s)
+theorem Inv_resetTimed {u ut : Option Nat} {c : Conn} (h : Inv u ut c) : Inv u ut (resetTimed c) := by
+  refine h.mono ⟨fun x hx => ⟨x, by simpa using hx, rfl, rfl, rfl, rfl⟩, fun x hx => ⟨x, by simpa using hx, rfl, rfl⟩,
+    ?_, by simp, by simp, by simp, by simp, by simp, by simp, by simp, by simp⟩ (by simp)
+  intro t ht
+  simp only [resetTimed_frame, List.mem_map] at ht
+  obtain ⟨t0, h0, rfl⟩ := ht
+  exact ⟨t0, h0, rfl, rfl⟩
 
-theorem H_connDisconnect {u : Option Nat} {c : Conn} (h : H u c) : H u (connDisconnect c) := by
-  by_cases hd : c.state = .disconnected
-  · rw [connDisconnect_of_disconnected hd]; exact h
-  · refine ⟨by simp, by simpa using h.tx1, by simpa using h.txE, by simp, by simpa using h.qE,
-      by simpa using h.smq, by simpa using h.noT, by simpa using h.tUd,
-      by simpa using h.tUniq, by simpa using h.userH, by simpa using h.userI, .inr (.inl (by simp))⟩
+theorem Inv_notify {u ut : Option Nat} {c : Conn} (h : Inv u ut c) (e : Ev) : Inv u ut (notify c e) :=
+  h.same (by simp [SameAll])
 
-/-- the MANDATORY_TLS check of `_auth`, as far as it matters for what is queued now -/
-def GateC (c : Conn) : Prop :=
-  c.state = .connected → c.tlsMandatory = true → c.hasTls = true ∧ c.secured = true
+/-- removing handlers (the dispatch loops) -/
+theorem Inv_filterHandlers {u ut : Option Nat} {c : Conn} (h : Inv u ut c) (p : Handler → Bool) :
+    Inv u ut { c with handlers := c.handlers.filter p } := by
+  refine h.mono ⟨?_, fun x hx => ⟨x, hx, rfl, rfl⟩, fun x hx => ⟨x, hx, rfl, rfl⟩, fun e he => he,
+    by simp, by simp, by simp, by simp, by simp, by simp, by simp⟩ (by simp)
+  intro x hx
+  exact ⟨x, (List.mem_filter.1 hx).1, rfl, rfl, rfl, rfl⟩
 
-theorem Safe.gateC {c : Conn} (s : Safe c) : GateC c := by
-  intro hc hm
-  rcases s with s | ⟨_, g⟩
-  · rw [hc] at s; cases s
-  · exact g hm
+theorem Inv_filterIdHandlers {u ut : Option Nat} {c : Conn} (h : Inv u ut c) (p : Handler → Bool) :
+    Inv u ut { c with idHandlers := c.idHandlers.filter p } := by
+  refine h.mono ⟨fun x hx => ⟨x, hx, rfl, rfl, rfl, rfl⟩, ?_, fun x hx => ⟨x, hx, rfl, rfl⟩, fun e he => he,
+    by simp, by simp, by simp, by simp, by simp, by simp, by simp⟩ (by simp)
+  intro x hx
+  exact ⟨x, (List.mem_filter.1 hx).1, rfl, rfl⟩
 
-theorem GateC.same {c c' : Conn} (s : GateC c) (e1 : c'.state = c.state) (e2 : c'.tlsMandatory = c.tlsMandatory)
-    (e3 : c'.hasTls = c.hasTls) (e4 : c'.secured = c.secured) : GateC c' := by
-  unfold GateC at *; rw [e1, e2, e3, e4]; exact s
+theorem Inv_filterTimed {u ut : Option Nat} {c : Conn} (h : Inv u ut c) (p : Timed → Bool) :
+    Inv u ut { c with timed := c.timed.filter p } := by
+  refine h.mono ⟨fun x hx => ⟨x, hx, rfl, rfl, rfl, rfl⟩, fun x hx => ⟨x, hx, rfl, rfl⟩, ?_, fun e he => he,
+    by simp, by simp, by simp, by simp, by simp, by simp, by simp⟩ (by simp)
+  intro x hx
+  exact ⟨x, (List.mem_filter.1 hx).1, rfl, rfl⟩
 
 /-! ### sending -/
 
-theorem H_sendStanza {u : Option Nat} {c : Conn} (h : H u c) (it : Item) (o : Owner)
-    (h1 : it.authBearing = true → GateC c) (hE : ElemOk it (ownerOf c o) (snapOf c)) :
-    H u (sendStanza c it o) := by
+theorem Inv_pushRawWith {u ut : Option Nat} {c : Conn} (h : Inv u ut c) (it : Item) (o : Owner) (s : Snap)
+    (h1 : it.authBearing = true → c.state = .connected → c.tlsMandatory = true → c.hasTls = true ∧ c.secured = true)
+    (hN : negItem it = true → ownerOf c o = .smStrophe ∧ ItemOk it s ∧ (c.state = .connected → FlagsNow c s)) :
+    Inv u ut (pushRawWith c it o s) := by
+  have m : Mono c (pushRawWith c it o s) :=
+    ⟨fun x hx => ⟨x, by simpa using hx, rfl, rfl, rfl, rfl⟩, fun x hx => ⟨x, by simpa using hx, rfl, rfl⟩,
+      fun x hx => ⟨x, by simpa using hx, rfl, rfl⟩, fun e he => by simpa using he,
+      by simp, by simp, by simp, by simp, by simp, by simp, by simp⟩
+  have g0 : G u { pushRawWith c it o s with queue := c.queue } := h.g.mono
+    ⟨m.hs, m.ids, m.tm, m.smq, m.cfg, m.tls, m.oh, m.p, m.en, m.sasl, m.off⟩ rfl
+  refine ⟨⟨g0.nc, g0.userH, g0.userI, g0.ud0, g0.uniq, ?_, g0.noT, g0.gated⟩, h.ph.mono m, h.me.mono m,
+    ⟨by simpa using h.el.txN, ?_, by simpa using h.el.smN⟩⟩
+  · intro hc hm e he hb
+    simp only [pushRawWith_frame] at hc hm ⊢
+    rcases mem_pushRawWith he with he | ⟨_, ⟨hi, _⟩ | ⟨hi, _⟩⟩
+    · exact h.g.q1 hc hm e he hb
+    · rw [hi] at hb; exact h1 hb hc hm
+    · rw [hi] at hb; simp [Item.authBearing] at hb
+  · intro e he hn
+    have hfl : FlagsNow (pushRawWith c it o s) e.snap ↔ FlagsNow c e.snap := by unfold FlagsNow; simp
+    simp only [pushRawWith_frame, hfl]
+    rcases mem_pushRawWith he with he | ⟨hsn, ⟨hi, ho⟩ | ⟨hi, _⟩⟩
+    · exact h.el.qN e he hn
+    · rw [hi] at hn ⊢; rw [ho, hsn]; exact hN hn
+    · rw [hi] at hn; simp [negItem] at hn
+
+theorem Inv_pushRaw {u ut : Option Nat} {c : Conn} (h : Inv u ut c) (it : Item) (o : Owner)
+    (h1 : it.authBearing = true → c.state = .connected → c.tlsMandatory = true → c.hasTls = true ∧ c.secured = true)
+    (hN : negItem it = true → ownerOf c o = .smStrophe ∧ ItemOk it (curSnap c)) :
+    Inv u ut (pushRaw c it o) :=
+  Inv_pushRawWith h it o _ h1 fun n => ⟨(hN n).1, (hN n).2, fun _ => ⟨rfl, rfl, rfl⟩⟩
+
+/-- pushes of elements that are not part of the authentication -/
+theorem Inv_pushRaw' {u ut : Option Nat} {c : Conn} (h : Inv u ut c) (it : Item) (o : Owner)
+    (hn : negItem it = false) : Inv u ut (pushRaw c it o) :=
+  Inv_pushRaw h it o (fun hb => by rw [authBearing_neg hb] at hn; cases hn) (fun n => by rw [n] at hn; cases hn)
+
+theorem Inv_sendStanza' {u ut : Option Nat} {c : Conn} (h : Inv u ut c) (it : Item) (o : Owner)
+    (hn : negItem it = false) : Inv u ut (sendStanza c it o) := by
   rw [sendStanza_eq]; split
-  · exact H_pushRaw h it o (fun a b d => h1 d a b) hE
+  · exact Inv_pushRaw' h it o hn
   · exact h
 
-theorem H_sendRaw {u : Option Nat} {c : Conn} (h : H u c) (it : Item) (o : Owner)
-    (h1 : it.authBearing = true → GateC c) (hE : ElemOk it (ownerOf c o) (snapOf c)) :
-    H u (sendRaw c it o) := by
+theorem Inv_sendRaw' {u ut : Option Nat} {c : Conn} (h : Inv u ut c) (it : Item) (o : Owner)
+    (hn : negItem it = false) : Inv u ut (sendRaw c it o) := by
   rw [sendRaw_eq]; split
-  · exact H_pushRaw h it o (fun a b d => h1 d a b) hE
+  · exact Inv_pushRaw' h it o hn
   · exact h
 
-theorem H_sendRawString {u : Option Nat} {c : Conn} (h : H u c) (it : Item)
-    (h1 : it.authBearing = true → GateC c) (hE : ElemOk it .smStrophe (snapOf c)) :
-    H u (sendRawString c it) := by
+theorem Inv_sendRawString' {u ut : Option Nat} {c : Conn} (h : Inv u ut c) (it : Item)
+    (hn : negItem it = false) : Inv u ut (sendRawString c it) := by
   rw [sendRawString_eq]; split
-  · exact H_pushRaw h it .smStrophe (fun a b d => h1 d a b) (by simpa [ownerOf] using hE)
+  · exact Inv_pushRaw' h it _ hn
   · exact h
 
-theorem H_xmppDisconnect {u : Option Nat} {c : Conn} (h : H u c) : H u (xmppDisconnect c) := by
+/-- the SASL / STARTTLS / legacy requests: past the TLS check, stream management off -/
+theorem Inv_sendStanza_neg {u ut : Option Nat} {c : Conn} (h : Inv u ut c) (it : Item)
+    (h1 : it.authBearing = true → c.state = .connected → c.tlsMandatory = true → c.hasTls = true ∧ c.secured = true)
+    (he : c.sm.enabled = false) (hi : ItemOk it (curSnap c)) : Inv u ut (sendStanza c it .strophe) := by
+  rw [sendStanza_eq]; split
+  · exact Inv_pushRaw h it _ h1 fun _ => ⟨by simp [ownerOf, he], hi⟩
+  · exact h
+
+theorem Inv_connOpenStream {u ut : Option Nat} {c : Conn} (h : Inv u ut c) : Inv u ut (connOpenStream c) := by
+  unfold connOpenStream; exact Inv_sendRawString' h _ rfl
+
+theorem Inv_negotiationSuccess {u ut : Option Nat} {c : Conn} (h : Inv u ut c) : Inv u ut (negotiationSuccess c) :=
+  h.same (by simp [SameAll])
+
+@[simp] theorem xmppDisconnect_frame (c : Conn) :
+    same_core[c, xmppDisconnect c] ∧ same_h[c, xmppDisconnect c] := by
+  unfold xmppDisconnect; split <;> simp
+
+theorem Inv_xmppDisconnect {u ut : Option Nat} {c : Conn} (h : Inv u ut c) : Inv u ut (xmppDisconnect c) := by
   unfold xmppDisconnect; split
   · exact h
-  · exact H_addTimed (H_sendRawString h .close (by simp [Item.authBearing]) (by simp [ElemOk])) _ _ _
+  · exact Inv_addTimed (Inv_sendRawString' h .close rfl) _ _ _ (by simp)
 
-theorem H_connOpenStream {u : Option Nat} {c : Conn} (h : H u c) : H u (connOpenStream c) := by
-  unfold connOpenStream
-  exact H_sendRawString h _ (by simp [Item.authBearing]) (by simp [ElemOk])
+/-! ### parser reset, disconnect, TLS -/
 
-theorem H_negotiationSuccess {u : Option Nat} {c : Conn} (h : H u c) : H u (negotiationSuccess c) :=
-  h.same (by simp [SameH])
+theorem Inv_prepareReset {u ut : Option Nat} {c : Conn} (h : Inv u ut c) (oh : OpenH)
+    (hk : NoH u isF c ∧ NoTM ut c ∧ NoH u isT c ∧ NoH u isS c)
+    (hp : c.state = .connected → c.pst ≠ .fresh)
+    (hcase : (oh = .openTls ∧ ¬LateC c ∧ (c.state ≠ .disconnected → NT c)) ∨
+      ((oh = .openSasl ∨ oh = .openCompress) ∧ Safe c)) : Inv u ut (prepareReset c oh) := by
+  have nh : ∀ p, NoH u p c → NoH u p (prepareReset c oh) := fun p n => by unfold NoH at *; simpa using n
+  have ntm : NoTM ut c → NoTM ut (prepareReset c oh) := NoTM_same (by simp)
+  have hs : Safe c → Safe (prepareReset c oh) := fun s => s.same (by simp) (by simp) (by simp) (by simp)
+  have hnt : NT c → NT (prepareReset c oh) := fun n => n.congr (by simp) (by simp) (by simp)
+  obtain ⟨k1, k2, k3, k4⟩ := hk
+  refine ⟨⟨by simpa using h.g.nc, by simpa using h.g.userH, by simpa using h.g.userI, by simpa using h.g.ud0,
+      by simpa using h.g.uniq, by simpa using h.g.q1, fun hsec => nh _ (h.g.noT (by simpa using hsec)), ?_⟩,
+    ⟨by simpa using h.ph.idFn, by simpa using h.ph.uniqS, by simpa using h.ph.uniqTM,
+      .inl ⟨nh _ k3, nh _ k4⟩, fun _ => ⟨nh _ k1, ntm k2, nh _ k3, nh _ k4⟩, ?_, by simpa using h.ph.e7, ?_⟩,
+    ⟨?_, ?_, by simpa [KMask] using h.me.k⟩,
+    ⟨by simpa using h.el.txN, by simpa [FlagsNow] using h.el.qN, by simpa using h.el.smN⟩⟩
+  · rcases hcase with ⟨ho, _, _⟩ | ⟨_, s⟩
+    · rcases h.g.gated with ⟨n1, n2, _, _⟩ | s
+      · exact .inl ⟨by simpa using n1, by simpa using n2, by simp [ho], by simp [ho]⟩
+      · exact .inr (hs s)
+    · exact .inr (hs s)
+  · intro l
+    refine ⟨nh _ k1, ntm k2, nh _ k3, nh _ k4, ?_⟩
+    rcases hcase with ⟨ho, nl, _⟩ | ⟨ho, _⟩
+    · exfalso
+      apply nl
+      rcases l with l | l | l | l | l
+      · exact .inl (by simpa using l)
+      · exact .inr (.inl (by simpa using l))
+      · simp [ho] at l
+      · simp [ho] at l
+      · exact .inr (.inr (.inr (.inr (by simpa using l))))
+    · rcases ho with ho | ho <;> simp [OpenPre, ho]
+  · intro hc hf
+    exact absurd (by simpa using hf) (hp (by simpa using hc))
+  · intro hl
+    rcases hcase with ⟨_, _, n⟩ | ⟨ho, _⟩
+    · exact .inl (hnt (n (by simpa using hl)))
+    · refine .inr ⟨nh _ k1, ntm k2, nh _ k3, fun _ => ?_⟩
+      rcases ho with ho | ho <;> simp [OpenPre, ho]
+  · intro hl
+    rcases h.me.i2 (by simpa using hl) with a | n
+    · exact .inl (nh _ a)
+    · exact .inr (by simpa using fun x => hnt (n x))
 
-/-! ### bind / session / stream management requests -/
+theorem Inv_connDisconnect {u ut : Option Nat} {c : Conn} (h : Inv u ut c) : Inv u ut (connDisconnect c) := by
+  by_cases hd : c.state = .disconnected
+  · rw [connDisconnect_of_disconnected hd]; exact h
+  have nh : ∀ p, NoH u p c → NoH u p (connDisconnect c) := fun p n => by unfold NoH at *; simpa using n
+  have ntm : NoTM ut c → NoTM ut (connDisconnect c) := NoTM_same (by simp)
+  have hen := connDisconnect_enabled hd
+  have hlate : LateC (connDisconnect c) → LateC c := by
+    rintro (l | l | l | l | l)
+    · exact .inl (by simpa using l)
+    · exact .inr (.inl (by simpa using l))
+    · exact .inr (.inr (.inl (by simpa using l)))
+    · exact .inr (.inr (.inr (.inl (by simpa using l))))
+    · rw [hen] at l; cases l
+  refine ⟨⟨by simp, by simpa using h.g.userH, by simpa using h.g.userI, by simpa using h.g.ud0,
+      by simpa using h.g.uniq, by simp, fun hsec => nh _ (h.g.noT (by simpa using hsec)), .inr (.inl (by simp))⟩,
+    ⟨by simpa using h.ph.idFn, by simpa using h.ph.uniqS, by simpa using h.ph.uniqTM, ?_, ?_, ?_, fun _ => hen,
+      by simp⟩, ⟨by simp, by simp, by simpa [KMask] using h.me.k⟩,
+    ⟨by simpa using h.el.txN, ?_, by simpa using h.el.smN⟩⟩
+  · rcases h.ph.excl with ⟨a, b⟩ | ⟨⟨a, a'⟩, b⟩ | ⟨⟨a, a'⟩, b⟩
+    · exact .inl ⟨nh _ a, nh _ b⟩
+    · exact .inr (.inl ⟨⟨nh _ a, ntm a'⟩, nh _ b⟩)
+    · exact .inr (.inr ⟨⟨nh _ a, ntm a'⟩, nh _ b⟩)
+  · intro f
+    obtain ⟨a, b, d, e⟩ := h.ph.e5 (by unfold Fr at *; simpa using f)
+    exact ⟨nh _ a, ntm b, nh _ d, nh _ e⟩
+  · intro l
+    obtain ⟨a, b, d, e, o⟩ := h.ph.e6 (hlate l)
+    exact ⟨nh _ a, ntm b, nh _ d, nh _ e, by unfold OpenPre at *; simpa using o⟩
+  · intro e he hn
+    obtain ⟨a, b, _⟩ := h.el.qN e (by simpa using he) hn
+    exact ⟨a, b, by simp⟩
 
-@[simp] theorem doBind_frame (c : Conn) :
-    same_cfg[c, doBind c] ∧ same_tls[c, doBind c] ∧ same_neg[c, doBind c] ∧ (doBind c).tx = c.tx := by
-  simp [doBind]
-
-theorem H_doBind {u : Option Nat} {c : Conn} (h : H u c) (s : Safe c) : H u (doBind c) := by
-  unfold doBind
-  exact H_sendStanza (H_addTimed (H_addIdHandler h _ _ _ (fun _ => s) (by simp)) _ _ _) _ _
-    (by simp [Item.authBearing]) (by simp [ElemOk])
-
-@[simp] theorem sessionStart_frame (c : Conn) :
-    same_cfg[c, sessionStart c] ∧ same_tls[c, sessionStart c] ∧ same_neg[c, sessionStart c] ∧
-    (sessionStart c).tx = c.tx := by
-  simp [sessionStart]
-
-theorem H_sessionStart {u : Option Nat} {c : Conn} (h : H u c) (s : Safe c) : H u (sessionStart c) := by
-  unfold sessionStart
-  exact H_sendStanza (H_addTimed (H_addIdHandler h _ _ _ (fun _ => s) (by simp)) _ _ _) _ _
-    (by simp [Item.authBearing]) (by simp [ElemOk])
-
-@[simp] theorem smEnable_frame (c : Conn) :
-    same_cfg[c, smEnable c] ∧ same_tls[c, smEnable c] ∧ same_neg[c, smEnable c] ∧ (smEnable c).tx = c.tx := by
-  simp [smEnable]
-
-theorem H_smEnable {u : Option Nat} {c : Conn} (h : H u c) (s : Safe c) : H u (smEnable c) := by
-  unfold smEnable
-  have h2 := H_sendStanza (H_addHandler h (.sys .sm) 0 (some Gen.nsSm) none none false (by simp [hT])
-    (fun _ => s) (by simp)) (.enable (!(addHandler c (.sys .sm) 0 (some Gen.nsSm) none none false).sm.dontRequestResume))
-    .smStrophe (by simp [Item.authBearing]) (by simp [ElemOk])
-  exact h2.same (by simp [SameH])
-
-theorem smQueueResend_fold_frame (b : Conn) (l : List (UInt32 × QElem)) (c : Conn)
-    (hb : same_cfg[b, c] ∧ same_tls[b, c] ∧ same_neg[b, c] ∧ same_h[b, c] ∧ c.sm.enabled = b.sm.enabled ∧ c.tx = b.tx) :
-    let d := l.foldl (fun c e => sendRaw c e.2.item e.2.owner) c
-    same_cfg[b, d] ∧ same_tls[b, d] ∧ same_neg[b, d] ∧ same_h[b, d] ∧ d.sm.enabled = b.sm.enabled ∧ d.tx = b.tx := by
-  induction l generalizing c with
-  | nil => simpa using hb
-  | cons e l ih =>
-    simp only [List.foldl_cons]
-    exact ih (sendRaw c e.2.item e.2.owner) (by simpa using hb)
-
-@[simp] theorem smQueueResend_frame (c : Conn) :
-    same_cfg[c, smQueueResend c] ∧ same_tls[c, smQueueResend c] ∧ same_neg[c, smQueueResend c] ∧
-    same_h[c, smQueueResend c] ∧ (smQueueResend c).sm.enabled = c.sm.enabled ∧ (smQueueResend c).tx = c.tx :=
-  smQueueResend_fold_frame c c.sm.queue { c with sm := { c.sm with queue := [] } } (by simp)
-
-theorem H_smQueueResend {u : Option Nat} {c : Conn} (h : H u c) (s : GateC c) (he : c.sm.enabled = true) :
-    H u (smQueueResend c) := by
-  unfold smQueueResend
-  have key : ∀ (l : List (UInt32 × QElem)) (c : Conn), H u c → GateC c → c.sm.enabled = true →
-      (∀ e ∈ l, e.2.owner ≠ .smStrophe) → H u (l.foldl (fun c e => sendRaw c e.2.item e.2.owner) c) := by
-    intro l
-    induction l with
-    | nil => intro c h _ _ _; exact h
-    | cons e l ih =>
-      intro c h s he ho
-      simp only [List.foldl_cons]
-      refine ih _ (H_sendRaw h _ _ (fun _ => s) ?_) (s.same (by simp) (by simp) (by simp) (by simp))
-        (by simpa using he) (fun e' he' => ho e' (List.mem_cons_of_mem _ he'))
-      have := ho e (List.mem_cons_self ..)
-      intro ho'
-      simp [ownerOf, he] at ho'
-      exact absurd ho' this
-  exact key c.sm.queue _ (h.same (by simp [SameH])) (s.same rfl rfl rfl rfl) he h.smq
-
-/-! ### `_auth` -/
-
-@[simp] theorem authLegacyStep_frame (c : Conn) :
-    same_cfg[c, authLegacyStep c] ∧ same_tls[c, authLegacyStep c] ∧ same_neg[c, authLegacyStep c] ∧
-    (authLegacyStep c).tx = c.tx := by
-  unfold authLegacyStep
+theorem Inv_connTlsStart {u ut : Option Nat} {c : Conn} (h : Inv u ut c) (hs : c.secured = false)
+    (hn : NoH u isT c) : Inv u ut (connTlsStart c).1 := by
+  have key : ∀ (ht sec tf : Bool) (er : Int), (ht = true → sec = true) → (sec = true ∨ sec = c.secured) →
+      Inv u ut { c with hasTls := ht, secured := sec, tlsFailed := tf, error := er } := by
+    intro ht sec tf er h1 h2
+    have m : Mono c { c with hasTls := ht, secured := sec, tlsFailed := tf, error := er } → True := fun _ => trivial
+    refine ⟨⟨h.g.nc, h.g.userH, h.g.userI, h.g.ud0, h.g.uniq, ?_, fun _ => hn, ?_⟩, ?_, ?_, ?_⟩
+    · intro hc hm e he hb
+      have := (h.g.q1 hc hm e he hb).2
+      rw [hs] at this; cases this
+    · rcases h.g.gated with n | s
+      · exact .inl n
+      · refine .inr ?_
+        rcases s with s | ⟨s, g⟩
+        · exact .inl s
+        · refine .inr ⟨s, fun hm => ?_⟩
+          have := (g hm).2
+          rw [hs] at this; cases this
+    · exact ⟨h.ph.idFn, h.ph.uniqS, h.ph.uniqTM, h.ph.excl, h.ph.e5, h.ph.e6, h.ph.e7, h.ph.frp⟩
+    · exact ⟨h.me.i1, h.me.i2, h.me.k⟩
+    · exact ⟨h.el.txN, h.el.qN, h.el.smN⟩
+  unfold connTlsStart
   split
-  · simp
+  · exact key false c.secured c.tlsFailed c.error (by simp) (.inr rfl)
   · split
-    · simp
-    · split <;> simp
-
-theorem H_authLegacyStep {u : Option Nat} {c : Conn} (h : H u c) (s : Safe c) (ha : c.authLegacy = true)
-    (hc : c.ctype = .client) : H u (authLegacyStep c) := by
-  unfold authLegacyStep
-  split
-  · exact H_xmppDisconnect h
-  · split
-    · exact H_xmppDisconnect h
+    · exact key false c.secured c.tlsFailed c.error (by simp) (.inr rfl)
     · split
-      · exact H_xmppDisconnect h
-      · exact H_sendStanza (H_addTimed (H_addIdHandler h (.sys .legacy) _ false (by simp [postFn]) (by simp)) _ _ _)
-          _ _ (fun _ => s.gateC.same (by simp) (by simp) (by simp) (by simp))
-          (by simp [ElemOk, snapOf, ha, hc])
-
-/-- one SASL attempt of `_auth`: install the result handler, send `<auth/>`, clear the mechanism bit -/
-def mechStep (c : Conn) (fn : HFun) (ud : Nat) (it : Item) (mask : Nat) : Conn :=
-  let c1 := addHandler c fn ud (some Gen.nsSasl) none none false
-  let c2 := sendStanza c1 it .strophe
-  { c2 with saslSupport := c2.saslSupport &&& (mask ^^^ 0xFFFF) }
-
-@[simp] theorem mechStep_frame (c : Conn) (fn : HFun) (ud : Nat) (it : Item) (mask : Nat) :
-    same_cfg[c, mechStep c fn ud it mask] ∧ same_tls[c, mechStep c fn ud it mask] ∧
-    (mechStep c fn ud it mask).tlsSupport = c.tlsSupport ∧
-    (mechStep c fn ud it mask).g.offeredMechs = c.g.offeredMechs ∧ (mechStep c fn ud it mask).tx = c.tx := by
-  simp [mechStep]
-
-theorem H_mechStep {u : Option Nat} {c : Conn} (h : H u c) (s : Safe c) (fn : HFun) (ud : Nat) (it : Item)
-    (mask : Nat) (hf : fn ≠ hT) (hi : ∃ m t, it = .auth m t) : H u (mechStep c fn ud it mask) := by
-  unfold mechStep
-  obtain ⟨m, t, rfl⟩ := hi
-  have h2 := H_sendStanza (H_addHandler h fn ud (some Gen.nsSasl) none none false (fun e => absurd e hf)
-    (fun _ => s) (by simp)) (.auth m t) .strophe
-    (fun _ => s.gateC.same (by simp) (by simp) (by simp) (by simp)) (by simp [ElemOk])
-  exact h2.same (by simp [SameH])
-
-theorem safe_of_gate {u : Option Nat} {c : Conn} (h : H u c)
-    (hg : ¬((c.tlsMandatory && !isSecured c) = true)) : Safe c := by
-  have g : Gate c := by
-    intro hm
-    rw [hm] at hg
-    unfold isSecured at hg
-    revert hg
-    cases c.secured <;> cases c.tlsFailed <;> cases c.hasTls <;> decide
-  have := h.nc
-  cases hs : c.state
-  · exact .inl hs
-  · exact absurd hs this
-  · exact .inr ⟨hs, g⟩
-
-/-- the STARTTLS request of `_auth` -/
-def startTlsStep (c : Conn) : Conn :=
-  let c1 := addHandler c (.sys .proceedTls) 0 (some Gen.nsTls) none none false
-  let c2 := sendStanza c1 .starttls .strophe
-  { c2 with tlsSupport := false }
-
-/-- the SCRAM attempt of `_auth` -/
-def scramStep (c : Conn) : Conn :=
-  match firstScram c.saslSupport with
-  | none => c
-  | some (ix, name, mask) =>
-    if (mask &&& scramPlusMask ≠ 0) && !isSecured c then xmppDisconnect c
-    else mechStep { c with nextUid := c.nextUid + 1 } (.sys (.scramChallenge c.nextUid ix)) (100 + c.nextUid)
-      (.auth name true) mask
-
-theorem auth_succ (c : Conn) (n : Nat) : auth c (n + 1) =
-    if c.tlsSupport then
-      if c.tlsNewFail then auth { c with tlsSupport := false } n else startTlsStep c
-    else if c.tlsMandatory && !isSecured c then connDisconnect c
-    else if anonJid c && c.saslSupport &&& Gen.saslMaskAnonymous ≠ 0 then
-      mechStep c (.sys (.saslResult (b "ANONYMOUS"))) 1 (.auth (b "ANONYMOUS") false) Gen.saslMaskAnonymous
-    else if c.saslSupport &&& Gen.saslMaskExternal ≠ 0 then
-      mechStep c (.sys (.saslResult (b "EXTERNAL"))) 2 (.auth (b "EXTERNAL") true) Gen.saslMaskExternal
-    else if anonJid c then xmppDisconnect c
-    else if c.pass.isNone then xmppDisconnect c
-    else if c.saslSupport &&& scramMaskAll ≠ 0 then scramStep c
-    else if c.saslSupport &&& Gen.saslMaskDigestmd5 ≠ 0 then
-      mechStep c (.sys .digestChallenge) 0 (.auth (b "DIGEST-MD5") false) Gen.saslMaskDigestmd5
-    else if c.saslSupport &&& Gen.saslMaskPlain ≠ 0 then
-      mechStep c (.sys (.saslResult (b "PLAIN"))) 3 (.auth (b "PLAIN") true) Gen.saslMaskPlain
-    else if c.ctype = .client && c.authLegacy then authLegacyStep c
-    else xmppDisconnect c := by
-  rfl
-
-theorem H_scramStep {u : Option Nat} {c : Conn} (h : H u c) (s : Safe c) : H u (scramStep c) := by
-  unfold scramStep
-  split
-  · exact h
-  · split
-    · exact H_xmppDisconnect h
-    · exact H_mechStep (c := { c with nextUid := c.nextUid + 1 }) (h.same (by simp [SameH]))
-        (s.same rfl rfl rfl rfl) _ _ _ _ (by simp [hT]) ⟨_, _, rfl⟩
-
-theorem H_auth {u : Option Nat} : ∀ (n : Nat) (c : Conn), H u c →
-    (c.tlsSupport = true → c.secured = false ∧ c.tlsDisabled = false) → H u (auth c n)
-  | 0, c, h, _ => h
-  | n + 1, c, h, hs => by
-    rw [auth_succ]
-    split
-    · rename_i ht
-      split
-      · exact H_auth n _ (h.same (by simp [SameH])) (by simp)
-      · have h2 := H_sendStanza (H_addHandler h hT 0 (some Gen.nsTls) none none false
-          (fun _ => ⟨(hs ht).1, rfl⟩) (by simp [postFn]) (by simp)) .starttls .strophe
-          (by simp [Item.authBearing]) (by simp [ElemOk, snapOf, (hs ht).2])
-        exact h2.same (by simp [SameH, startTlsStep])
-    · split
-      · exact H_connDisconnect h
-      · rename_i hg
-        have s := safe_of_gate h hg
-        split
-        · exact H_mechStep h s _ _ _ _ (by simp [hT]) ⟨_, _, rfl⟩
-        · split
-          · exact H_mechStep h s _ _ _ _ (by simp [hT]) ⟨_, _, rfl⟩
-          · split
-            · exact H_xmppDisconnect h
-            · split
-              · exact H_xmppDisconnect h
-              · split
-                · exact H_scramStep h s
-                · split
-                  · exact H_mechStep h s _ _ _ _ (by simp [hT]) ⟨_, _, rfl⟩
-                  · split
-                    · exact H_mechStep h s _ _ _ _ (by simp [hT]) ⟨_, _, rfl⟩
-                    · split
-                      · rename_i hl
-                        simp at hl
-                        exact H_authLegacyStep h s hl.2 hl.1
-                      · exact H_xmppDisconnect h
-
-@[simp] theorem scramStep_frame (c : Conn) :
-    same_cfg[c, scramStep c] ∧ same_tls[c, scramStep c] ∧ (scramStep c).tlsSupport = c.tlsSupport ∧
-    (scramStep c).g.offeredMechs = c.g.offeredMechs ∧ (scramStep c).tx = c.tx := by
-  unfold scramStep
-  split
-  · simp
-  · split <;> simp
-
-theorem auth_sup_of_false : ∀ (n : Nat) (c : Conn), c.tlsSupport = false → (auth c n).tlsSupport = false
-  | 0, c, h => h
-  | n + 1, c, h => by
-    rw [auth_succ]
-    simp only [h, Bool.false_eq_true, if_false]
-    repeat' split
-    all_goals simp [h]
-
-theorem auth_sup (n : Nat) (c : Conn) : (auth c (n + 1)).tlsSupport = false := by
-  by_cases h : c.tlsSupport = true
-  · rw [auth_succ]
-    simp only [h, if_true]
-    split
-    · exact auth_sup_of_false n _ rfl
-    · simp [startTlsStep]
-  · exact auth_sup_of_false _ _ (by simpa using h)
+      · exact key false c.secured true 71 (by simp) (.inr rfl)
+      · exact key true true c.tlsFailed c.error (by simp) (.inl rfl)
 
 end Strophe.Lemmas.ConnC02
